@@ -289,10 +289,13 @@ FaultOnStandbyCmd(e) ==
           \/ IsStandbyCmd(e, b)
           \/ (b.t = "busy" /\ e.fault >= 1 /\ IsStandbyCmd(e, e.bus[e.fault]))
 
-\* the injected fault came on top of an operation that had already timed out on its own (it hit the clean-up
-\* after the time-out): two failures, outside the single-fault quantifier (DESIGN 7.7).  A false belief of
+\* the injected fault came on top of an operation that had already failed on its own (it hit the clean-up
+\* after the time-out / the refused packet): two failures, outside the single-fault quantifier (DESIGN 7.7).  A false belief of
 \* standby is still never excused.
-SecondFailure(e) == e.fault >= 0 /\ (e.timed_out = 1 \/ e.err \in {"TransmitTimeout", "ReceiveTimeout"})
+\* (the errors an injected bus fault itself surfaces as; any other error is the operation's own failure - a
+\* time-out, a packet that does not fit the caller's buffer, an unsupported mode)
+BusErrs == {"SPI", "Busy", "Irq", "Reset", "RfSwitchRx", "RfSwitchTx"}
+SecondFailure(e) == e.fault >= 0 /\ (e.timed_out = 1 \/ (e.res = "err" /\ e.err \notin BusErrs))
 
 \* the open finding S23 matches this call (injected bus fault, no standby / driver not reset)
 S23(e, s) ==
